@@ -706,6 +706,64 @@ def nested_path_check(src: str, nodes: list[dict], must_raise: bool, shorthand: 
     return checks, None
 
 
+class KeptErrors:
+    """Errors that are kept and looked at again after the same process has
+    parsed other templates. An error must go on describing ITS OWN source: the
+    token (source text, start, stop), str() and context() are what they were
+    when it was raised, and a located token still lies in the source the error
+    was raised for. (A token object shared between parses - an end-of-input
+    token that a later parse writes its own position into - breaks this.)"""
+
+    def __init__(self) -> None:
+        self.items: list[tuple[Any, str, Any, str]] = []
+        self.rechecked = 0
+
+    @staticmethod
+    def _snap(err: Any) -> Any:
+        tok = getattr(err, "token", None)
+        t = None if tok is None else (type(tok).__name__, getattr(tok, "source", None), getattr(tok, "start", None), getattr(tok, "stop", None))
+        try:
+            text = str(err)
+        except Exception as e:  # noqa: BLE001
+            text = f"<str() raised {type(e).__name__}>"
+        try:
+            ctx = repr(err.context())
+        except Exception as e:  # noqa: BLE001
+            ctx = f"<context() raised {type(e).__name__}>"
+        return (t, text, ctx)
+
+    def keep(self, err: Any, src: str, how: str) -> None:
+        self.items.append((err, src, self._snap(err), how))
+
+    def recheck(self) -> list[tuple[str, dict[str, Any]]]:
+        """Failures as (text, replay); the kept errors are dropped afterwards."""
+        out = []
+        for err, src, snap, how in self.items:
+            self.rechecked += 1
+            now = self._snap(err)
+            fail = None
+            if now != snap:
+                what = "token" if now[0] != snap[0] else ("str()" if now[1] != snap[1] else "context()")
+                detail = ""
+                if what == "token" and now[0] and snap[0]:
+                    detail = (f": [{snap[0][2]}:{snap[0][3]}) of its own source ({len(snap[0][1] or '')} characters) became "
+                              f"[{now[0][2]}:{now[0][3]}) of {'the same' if now[0][1] == snap[0][1] else 'ANOTHER'} text")
+                fail = f"error-kept: the {what} of a kept {type(err).__name__} changed after other templates were parsed{detail}"
+            else:
+                tok = getattr(err, "token", None)
+                if tok is not None and getattr(tok, "start", -1) >= 0 and getattr(tok, "source", None) == src:
+                    # (start only: the stop of a lexer ErrorToken is start + the length of the text scanned BEFORE start)
+                    if not (0 <= tok.start <= len(src)):
+                        fail = f"error-kept: kept token starts at {tok.start}, outside its source ({len(src)})"
+                    else:
+                        fail = location_check(err, src)
+            if fail:
+                out.append((fail, {"source": src, "error": type(err).__name__, "raised_by": how,
+                                   "how": "keep the error, parse / tokenize the following templates of the stream, inspect the error again"}))
+        self.items = []
+        return out
+
+
 def program_check(templates: dict[str, str], entry: str, expect_name: str, strict: bool) -> tuple[int, str | None]:
     """Render a multi-template program (render and render_async). For the
     LiquidError it raises: the token's source is the source of the template the
